@@ -1,4 +1,6 @@
 
+val negb : bool -> bool
+
 type nat =
 | O
 | S of nat
@@ -17,6 +19,8 @@ type comparison =
 | Gt
 
 val add : nat -> nat -> nat
+
+val concat : 'a1 list list -> 'a1 list
 
 val map : ('a1 -> 'a2) -> 'a1 list -> 'a2 list
 
@@ -106,6 +110,8 @@ module N :
 
   val leb : n -> n -> bool
 
+  val min : n -> n -> n
+
   val pos_div_eucl : positive -> n -> n * n
 
   val div_eucl : n -> n -> n * n
@@ -167,8 +173,6 @@ type cmd =
 
 val cmd_eqb : cmd -> cmd -> bool
 
-val missing_N : n
-
 val cmd_disc : (n * cmd) list
 
 val cmd_table : (n * cmd) list
@@ -206,3 +210,35 @@ val decode_all : bytes -> frame list * bytes
 val feed : bytes -> bytes -> frame list * bytes
 
 val feed_all : bytes -> bytes list -> frame list * bytes
+
+type rd = { rq : bytes list; rclosed : bool; rbuf : bytes; reof : bool }
+
+type rres =
+| RData of bytes
+| REof
+| RPending
+
+val rd_init : rd
+
+val is_nil : 'a1 list -> bool
+
+val rd_push : rd -> bytes -> rd
+
+val rd_close : rd -> rd
+
+val pop_nonempty : bytes list -> (bytes * bytes list) option
+
+val rd_read : rd -> n -> rd * rres
+
+type xres =
+| XOk of bytes
+| XEof
+| XPending
+
+val rd_read_exact_fuel : nat -> rd -> n -> bytes -> rd * xres
+
+val rd_read_exact : rd -> n -> rd * xres
+
+val rd_pending_bytes : rd -> bytes
+
+val rd_read_script : rd -> n list -> (rd * bytes) * bool
